@@ -95,6 +95,12 @@ CLAIMED = {
    design="5/C10",
    note="Trusted: Lossy.tla, TLC. TLC costs ~3 ms per 240-candidate colour, so 'all 2^24' is reached by the transliteration sweep and decided by TLC on the forwarded subset (DESIGN section 6).",
    technique="TLA+ spec (Lossy) + TLC trace validation of conversion calls; exhaustive small conversions; sweep-aimed RGB sample"),
+ "C16": dict(
+   level="model_checking",
+   text="Convert.tla states, per target library, what it can express and how a rendering is judged: the converted style is rendered by the target library itself around a marker character, the bytes are run through the VtParser specification and the strict SGR reading, and the rendition in force at the marker must equal the style restricted to the expressible attributes (hues never altered, brightness where a per-colour form exists, indexed/RGB exact, nothing invented). Every rendering of the quantifier - 16 + 256 colours and an RGB lattice per slot, effect sets with <= 2 members plus a seeded eighth (quick) or all 4096 (thorough), alone and with seeded colours, for ansi_term, crossterm, owo-colors, termcolor, yansi; syntect by field comparison incl. alpha values - is an event validated by TLC.",
+   design="5/C16",
+   note="Trusted: Convert.tla's Expressible table (from the libraries' APIs at the adapters' minimum versions), Sgr.tla, VtParser.tla, TLC; the third-party libraries' own renderers are the observation channel.",
+   technique="TLA+ spec (Convert over VtParser+Sgr) + TLC trace validation of library renderings"),
 }
 PENDING_REASON = "check not built yet in this revision of /verif (planned with the TLA+ specification, see DESIGN.md section 5); not claimed until its quick command exists"
 
